@@ -15,7 +15,7 @@ every read returns what it returns when the threads run one after the other.
 -/
 import Acme.Core.Conc
 import Acme.Proofs.Conc
-import Acme.Proofs.Sites
+import Acme.Proofs.SitesStore
 
 namespace Acme.Props.C18
 open Acme.Conc
